@@ -110,7 +110,14 @@ func c12Config(r *ev.Reporter, scheme string, n int) {
 	for k := 1; k <= n; k++ {
 		sigs = append(sigs, sigV{fmt.Sprintf("%d-signers", k), c.Combine(c.SignBlock(bA, fix.Range(k)...)...)})
 	}
+	if n >= 3 {
+		// signers in arrival order, not ascending (votes reach the leader in any order)
+		idx := append([]int{n - 1}, fix.Range(n - 1)...)
+		idx[1], idx[len(idx)-1] = idx[len(idx)-1], idx[1]
+		sigs = append(sigs, sigV{fmt.Sprintf("signers-in-order-%v", idx), c.Combine(c.SignBlock(bA, idx...)...)})
+	}
 	if n >= 2 {
+		sigs = append(sigs, sigV{"signers-descending", c.Combine(c.SignBlock(bA, n-1, 0)...)})
 		// a non-prefix signer set (ids 2..n)
 		idx := fix.Range(n)[1:]
 		sigs = append(sigs, sigV{"signers-2..n", c.Combine(c.SignBlock(bA, idx...)...)})
@@ -204,7 +211,11 @@ func c12Config(r *ev.Reporter, scheme string, n int) {
 		}
 	}
 	// --- AggQC: 0..n entries (+ ids 0 and 2^32-1), each attesting genesis or a real QC
-	goodQC := c.QC(bA, fix.Range(hotstuff.QuorumSize(n))...)
+	qidx := fix.Range(hotstuff.QuorumSize(n))
+	if len(qidx) >= 2 {
+		qidx[0], qidx[len(qidx)-1] = qidx[len(qidx)-1], qidx[0] // arrival order, not ascending
+	}
+	goodQC := c.QC(bA, qidx...)
 	var aggs []hotstuff.AggregateQC
 	for k := 0; k <= n; k++ {
 		for _, extra := range [][]hotstuff.ID{nil, {0}, {math.MaxUint32}} {
